@@ -272,7 +272,10 @@ func rulesHandler(args []string) (string, []string) {
 		return resp, ps.out()
 	case len(args) == 1 && args[0] == "types":
 		var parts []string
-		list := rules_lib.VerifRuleTypes()
+		list := ruleTypeList()
+		if list == nil {
+			return "needs-hooks", nil
+		}
 		sort.Slice(list, func(i, j int) bool { return list[i].Name < list[j].Name })
 		for _, t := range list {
 			// the decoder's name is not recoverable from the function value; the static
@@ -289,7 +292,7 @@ func rulesHandler(args []string) (string, []string) {
 func checkRuleTables(ps *propSink) {
 	reg := map[string]int{}
 	orders := map[int]string{}
-	for _, t := range rules_lib.VerifRuleTypes() {
+	for _, t := range ruleTypeList() {
 		reg[t.Name] = t.Order
 		if o, dup := orders[t.Order]; dup {
 			ps.add("C09", "rule types %s and %s share order %d", o, t.Name, t.Order)
